@@ -287,7 +287,6 @@ where
             matchiters: Vec::new(),
             nextmatches: Vec::new(),
             text: self.text(),
-            begincharpos: 0,
             beginbytepos: 0,
             allow_overlap,
         })
@@ -470,7 +469,6 @@ where
             matchiters: Vec::new(),
             nextmatches: Vec::new(),
             text: self.text(),
-            begincharpos: self.begin(),
             beginbytepos: self
                 .store()
                 .subslice_utf8_offset(text)
@@ -696,7 +694,6 @@ where
             matchiters: Vec::new(),
             nextmatches: Vec::new(),
             text: self.text(),
-            begincharpos: self.begin(),
             beginbytepos: self
                 .store()
                 .subslice_utf8_offset(text)
@@ -1014,7 +1011,6 @@ pub struct FindRegexIter<'store, 'regex> {
     pub(crate) matchiters: Vec<Matches<'regex, 'store>>, //each expression (from selectexpressions) has its own interator  (same length as above vec)
     pub(crate) nextmatches: Vec<Option<Match<'store>>>, //this buffers the next match for each expression (from selectexpressions, same length as above vec)
     pub(crate) text: &'store str,
-    pub(crate) begincharpos: usize,
     pub(crate) beginbytepos: usize,
     pub(crate) allow_overlap: bool,
 }
